@@ -324,7 +324,15 @@ where
                 erase(signal::from_interleaved_samples_iter::<_, F>(it))
             }
         },
-        Node::Map(c) => erase(build::<F>(c, b).map(|f: F| f.scale_amp(F::gain(-1.0)))),
+        Node::Map(c) => {
+            // the closure counts its calls (registered like an inspect closure, in pre-order)
+            let cnt = Rc::new(Cell::new(0u64));
+            b.inspects.push(cnt.clone());
+            erase(build::<F>(c, b).map(move |f: F| {
+                cnt.set(cnt.get() + 1);
+                f.scale_amp(F::gain(-1.0))
+            }))
+        }
         Node::ScaleAmp(c, g) => erase(build::<F>(c, b).scale_amp(F::gain(gain_of(*g)))),
         Node::OffsetAmp(c, o) => erase(build::<F>(c, b).offset_amp(F::soff(off_of(*o)))),
         Node::ScalePerCh(c, g) => erase(build::<F>(c, b).scale_amp_per_channel(F::gain_frame(gain_of(*g)))),
